@@ -87,7 +87,7 @@ def _level1(case):
                 if kept > mr and not (kept == 1):
                     return count, ("rank-cap", f"{tag}: kept rank {kept} > max_rank")
                 iso = (L.conj().T @ L) if right else (Rm @ Rm.conj().T)
-                if np.abs(iso - np.eye(kept)).max() > 1e-10:
+                if not np.abs(iso - np.eye(kept)).max() <= 1e-10:  # NaN fails
                     return count, ("not-isometric", f"{tag}: the factor away from the centre is not an isometry")
                 nm = np.linalg.norm(m)
                 rec = L @ Rm
